@@ -243,6 +243,7 @@ func run(r *core.Run) {
 	}
 	timed("quasi", runQuasi)
 	timed("macro", runMacro)
+	timed("budget", runBudget)
 	timed("reentrancy", runReentrancy)
 	timed("stateful", runStateful)
 	timed("shared", runShared)
@@ -275,6 +276,11 @@ func replay(v core.Violation) (bool, string) {
 		b.WriteString(rep)
 		return bad, b.String()
 	case "macro":
+		if k.Check == "budget" {
+			bad, rep := replayBudget(k)
+			b.WriteString(rep)
+			return bad, b.String()
+		}
 		bad, rep := replayMacro(k)
 		b.WriteString(rep)
 		return bad, b.String()
